@@ -42,7 +42,11 @@ structure BO where
 
 /-- one spend event: index into the current slice; `ours` = `IsHtlcSpendRevoke`
 (the spend used the revocation path, i.e. it is our own justice transaction);
-the output the spending transaction created at the spender's input index -/
+`newOp` / `newAmt` = the output the spending transaction created AT THE SPENDER'S
+INPUT INDEX: second-level outpoint = (spender txid, SpenderInputIndex) — the
+SIGHASH_SINGLE pairing of input i with output i, which is what holds when the
+cheater aggregates several second-level spends (plus wallet inputs) into one
+transaction. The harness names that outpoint independently of the code. -/
 structure Spend where
   index : Nat
   ours : Bool
